@@ -35,6 +35,15 @@ def mod_name(unit_name):
     return 'cv_kani_' + re.sub(r'[^A-Za-z0-9]', '_', unit_name).lower()
 
 
+def full_mod_path(unit):
+    """module path (inside the crate) of the harness module appended to unit['append_to']"""
+    rel = unit['append_to'].split('/src/', 1)[1]
+    parts = rel[:-3].split('/')
+    if parts[-1] in ('lib', 'mod', 'main'):
+        parts = parts[:-1]
+    return '::'.join(parts + [mod_name(unit['name'])])
+
+
 def append_unit(wsdir, unit, extra_tests=''):
     """append the unit's harness module to its target file; attach contract attributes.
     Returns list of anchor problems (empty = ok)."""
@@ -139,9 +148,10 @@ def parse_output(text):
             r['unwind_fail'] = True
     # harness timeouts are also reported in the summary
     for ln in lines:
-        mm = re.match(r'.*[Tt]imed? ?out.*?(cv_kani_\w+::\w+)', ln)
-        if mm and mm.group(1) in results:
-            results[mm.group(1)]['timeout'] = True
+        if re.search(r'[Tt]imed? ?out', ln):
+            for h in results:
+                if h in ln:
+                    results[h]['timeout'] = True
     return results
 
 
